@@ -8,6 +8,7 @@ import (
 	"io"
 	"net/http"
 	urlpkg "net/url"
+	"sync"
 	"time"
 
 	"github.com/IrineSistiana/mosproxy/internal/dnsmsg"
@@ -27,6 +28,10 @@ type DoHTransport struct {
 	rt     http.RoundTripper
 	logger *zerolog.Logger
 	closer io.Closer
+
+	ctx         context.Context // canceled by Close
+	cancelCause context.CancelCauseFunc
+	closeOnce   sync.Once
 
 	urlTemplate *urlpkg.URL
 	reqTemplate *http.Request
@@ -48,21 +53,32 @@ func NewDoHTransport(opts DoHTransportOpts) (*DoHTransport, error) {
 	req.Header["Accept"] = []string{"application/dns-message"}
 	req.Header["User-Agent"] = nil // Don't let go http send a default user agent header.
 
+	ctx, cancel := context.WithCancelCause(context.Background())
 	t := &DoHTransport{
 		rt:          opts.RoundTripper,
 		closer:      opts.Closer,
 		logger:      nonNilLogger(opts.Logger),
+		ctx:         ctx,
+		cancelCause: cancel,
 		urlTemplate: req.URL,
 		reqTemplate: req,
 	}
 	return t, nil
 }
 
-func (u *DoHTransport) Close() error {
-	if u.closer != nil {
-		return u.Close()
-	}
-	return nil
+// Close aborts in-flight exchanges, makes subsequent ones fail, closes
+// idle connections and the additional closer, if any.
+func (u *DoHTransport) Close() (err error) {
+	u.closeOnce.Do(func() {
+		u.cancelCause(ErrClosedTransport)
+		if t, ok := u.rt.(interface{ CloseIdleConnections() }); ok {
+			t.CloseIdleConnections()
+		}
+		if u.closer != nil {
+			err = u.closer.Close()
+		}
+	})
+	return err
 }
 
 var (
@@ -76,6 +92,9 @@ func (u *DoHTransport) ExchangeContext(ctx context.Context, q []byte) (*dnsmsg.M
 	}
 	if l > dohMaximumMsgSize {
 		return nil, ErrPayloadOverFlow
+	}
+	if ctxIsDone(u.ctx) {
+		return nil, ErrClosedTransport
 	}
 	bp := copyMsg(q)
 	bs := bp
@@ -105,7 +124,7 @@ func (u *DoHTransport) ExchangeContext(ctx context.Context, q []byte) (*dnsmsg.M
 		// Because the http package may close the underlay connection
 		// if the context is done before the query is completed. This
 		// reduces the connection reuse efficiency.
-		ctx, cancel := context.WithTimeout(context.Background(), defaultDoHTimeout)
+		ctx, cancel := context.WithTimeout(u.ctx, defaultDoHTimeout)
 		defer cancel()
 		r, err := u.exchange(ctx, bytesToStringUnsafe(rawQuery))
 		if err != nil {
